@@ -3,6 +3,12 @@
 -/
 import LMV.Model.Pwm
 import LMV.Model.Abc
+import Mathlib.Algebra.Field.Rat
+import Mathlib.Algebra.Order.Ring.Rat
+import Mathlib.Algebra.BigOperators.Group.List.Basic
+import Mathlib.Tactic.Ring
+import Mathlib.Tactic.Linarith
+import Mathlib.Tactic.FieldSimp
 
 namespace LMV
 namespace C09
@@ -162,6 +168,135 @@ example :
   decide +kernel
 
 end counting
+
+/-! ### (2) exact arithmetic (`Rat`): frequencies and weights -/
+
+section exact
+variable {K : Nat}
+
+/-! the `Arith Rat` instance in ordinary notation -/
+@[simp] theorem rat_zero : (Arith.zero : Rat) = 0 := rfl
+@[simp] theorem rat_sumZero : (Arith.sumZero : Rat) = 0 := rfl
+@[simp] theorem rat_one : (Arith.one : Rat) = 1 := rfl
+@[simp] theorem rat_hundredth : (Arith.hundredth : Rat) = 1 / 100 := rfl
+@[simp] theorem rat_ofNat (n : Nat) : (Arith.ofNat n : Rat) = (n : Rat) := rfl
+@[simp] theorem rat_add (a b : Rat) : Arith.add a b = a + b := rfl
+@[simp] theorem rat_sub (a b : Rat) : Arith.sub a b = a - b := rfl
+@[simp] theorem rat_mul (a b : Rat) : Arith.mul a b = a * b := rfl
+@[simp] theorem rat_div (a b : Rat) : Arith.div a b = a / b := rfl
+@[simp] theorem rat_beq (a b : Rat) : Arith.beq a b = decide (a = b) := rfl
+@[simp] theorem rat_lt (a b : Rat) : Arith.lt a b = decide (a < b) := rfl
+@[simp] theorem rat_le (a b : Rat) : Arith.le a b = decide (a ≤ b) := rfl
+@[simp] theorem rat_abs (a : Rat) : Arith.abs a = |a| := by
+  show (if a < 0 then -a else a) = |a|
+  split
+  · rw [abs_of_neg ‹_›]
+  · rw [abs_of_nonneg (not_lt.mp ‹_›)]
+
+theorem foldl_add_rat (l : List Nat) (f : Nat → Rat) (a : Rat) :
+    l.foldl (fun acc j => acc + f j) a = a + (l.map f).sum := by
+  induction l generalizing a with
+  | nil => simp
+  | cons x xs ih => simp only [List.foldl_cons, List.map_cons, List.sum_cons, ih]; ring
+
+/-- over `Rat` the left fold of `iter().sum()` is the sum -/
+theorem sumRange_rat (n : Nat) (f : Nat → Rat) : sumRange n f = ((List.range n).map f).sum := by
+  unfold sumRange
+  show List.foldl (fun acc j => acc + f j) 0 _ = _
+  rw [foldl_add_rat]; simp
+
+theorem sum_map_div (l : List Nat) (f : Nat → Rat) (t : Rat) :
+    (l.map fun j => f j / t).sum = (l.map f).sum / t := by
+  induction l with
+  | nil => simp
+  | cons x xs ih => simp only [List.map_cons, List.sum_cons, ih]; ring
+
+/-- the row total `Σ_j (count[i][j] + pseudo[j])` -/
+def rowTotal (c : Mat Nat K) (p : Nat → Rat) (i : Nat) : Rat :=
+  ((List.range K).map fun j => (c.get i j : Rat) + p j).sum
+
+theorem toFreq_rows {α : Type} [Arith α] (c : Mat Nat K) (p : Nat → α) :
+    (toFreq c p).rows = c.rows := by simp [toFreq]
+
+/-- **frequency = (count + pseudocount) / row total** (the guard `total ≠ 0` is the one the real
+    code relies on: with a zero total the `f32` result is NaN) -/
+theorem freq_eq (c : Mat Nat K) (p : Nat → Rat) (i j : Nat) (hi : i < c.rows) (hj : j < K)
+    (_ht : rowTotal c p i ≠ 0) :
+    (toFreq c p).get i j = ((c.get i j : Rat) + p j) / rowTotal c p i := by
+  simp only [toFreq, Mat.get_ofFn, hi, hj, and_self, if_true]
+  rw [sumRange_rat]
+  rfl
+
+/-- **every frequency row sums to one** -/
+theorem freq_row_sum (c : Mat Nat K) (p : Nat → Rat) (i : Nat) (hi : i < c.rows)
+    (ht : rowTotal c p i ≠ 0) :
+    sumRange K ((toFreq c p).get i) = 1 := by
+  rw [sumRange_rat]
+  have : (List.range K).map ((toFreq c p).get i)
+      = (List.range K).map (fun j => ((c.get i j : Rat) + p j) / rowTotal c p i) := by
+    apply List.map_congr_left
+    intro j hj
+    exact freq_eq c p i j hi (List.mem_range.mp hj) ht
+  rw [this, sum_map_div]
+  exact div_self ht
+
+/-- a frequency matrix produced by `to_freq` passes the validation of `FrequencyMatrix::new`
+    (stated after `freqNew_ok_iff` below as `toFreq_valid`) -/
+theorem weight_struct {α : Type} [Inhabited α] [Arith α] (m : Mat α K) (bg : Nat → α) (i j : Nat)
+    (hi : i < m.rows) (hj : j < K) :
+    (toWeight m bg).get i j =
+      if Arith.beq (bg j) zero then zero else div (m.get i j) (bg j) := by
+  simp [toWeight, hi, hj]
+
+/-- **weight = frequency / background, and 0 where the background is 0** -/
+theorem weight_rat (m : Mat Rat K) (bg : Nat → Rat) (i j : Nat) (hi : i < m.rows) (hj : j < K) :
+    (bg j = 0 → (toWeight m bg).get i j = 0) ∧
+    (bg j ≠ 0 → (toWeight m bg).get i j = m.get i j / bg j) := by
+  rw [weight_struct m bg i j hi hj]
+  constructor
+  · intro h; simp [h]
+  · intro h; simp [h]
+
+/-- the two stages composed, from the counts -/
+theorem weight_of_counts (c : Mat Nat K) (p bg : Nat → Rat) (i j : Nat) (hi : i < c.rows)
+    (hj : j < K) (ht : rowTotal c p i ≠ 0) :
+    (bg j = 0 → (toWeight (toFreq c p) bg).get i j = 0) ∧
+    (bg j ≠ 0 → (toWeight (toFreq c p) bg).get i j
+        = ((c.get i j : Rat) + p j) / rowTotal c p i / bg j) := by
+  have h := weight_rat (toFreq c p) bg i j (by rw [toFreq_rows]; exact hi) hj
+  rw [freq_eq c p i j hi hj ht] at h
+  exact h
+
+/-- `rescale` (after the fix): from odds against `old` to odds against `new`, zero where `new` is
+    zero; where `old` is zero the information is gone (the odds stay zero) -/
+theorem rescale_rat (f : Mat Rat K) (old new : Nat → Rat) (i j : Nat) (hi : i < f.rows)
+    (hj : j < K) :
+    (new j = 0 → (rescale (toWeight f old) old new).get i j = 0) ∧
+    (new j ≠ 0 → old j ≠ 0 → (rescale (toWeight f old) old new).get i j = f.get i j / new j) := by
+  have hw := weight_rat f old i j hi hj
+  have hr : (toWeight f old).rows = f.rows := by simp [toWeight]
+  unfold rescale
+  by_cases hd : bgDiffers K new old = true
+  · simp only [hd, if_true, Mat.get_ofFn, hr, hi, hj, and_self]
+    constructor
+    · intro h; simp [h]
+    · intro h h'
+      rw [hw.2 h']
+      simp only [rat_beq, rat_zero, rat_mul, rat_div, h, decide_false, Bool.false_eq_true, if_false]
+      field_simp
+  · -- the backgrounds are equal on `0..K`
+    have hd2 : bgDiffers K new old = false := by simpa using hd
+    have hd' : (List.range K).all (fun j => Arith.beq (new j) (old j)) = true := by
+      unfold bgDiffers at hd2; simpa using hd2
+    have hj' : new j = old j := by
+      have := (List.all_eq_true.mp hd') j (List.mem_range.mpr hj)
+      simpa using this
+    simp only [hd2, Bool.false_eq_true, if_false]
+    constructor
+    · intro h; exact hw.1 (hj' ▸ h)
+    · intro _ h'; rw [hw.2 h', hj']
+
+end exact
 
 end C09
 end LMV
